@@ -196,6 +196,21 @@ def oracle_survey(ctx, res, inp):
         emitting = scene.expected_emitting(n, res.day)
         if act and emitting != emitting_flag:
             facts["emitting_flag_mismatch"] = True
+        if act and in_site and not emitting and not scene.em_cfg[n][2] and scene.em_cfg[n][4] == 0:
+            facts["pause_day_of_zero_inactive"] = True
+        # second, independent ground truth: what the emission BOOKS for this day at the daily update (+1 emitting
+        # day = volume of the day, or +0); only for emissions that are still active after the update (the update
+        # that ends an emission books nothing for its last day)
+        bk = scene.booked.get((n, res.day))
+        if act and bk is not None and bk[1] == bk[2]:
+            if (bk[0] == 1) != emitting:
+                facts["booked_differs_from_cycle"] = True
+            if bk[0] == 0 and n in returned:
+                V("C05:visible:emission-contributes-on-a-day-it-emits-nothing",
+                  "get_detectable_emissions returned an emission on a day for which the emission books no emitting "
+                  "day (its emitted volume does not grow that day)",
+                  {"emission": n, "day": res.day, "source": scene.em_place[n][3], "cycle": list(scene.em_cfg[n][2:]),
+                   "is_emitting_flag": emitting_flag, "emitting_by_configured_cycle": emitting})
         sp = rec.spatial.get(n)
         drew = sp[1] if sp else 0
         # -- scope: only members of active lists of the surveyed site are examined
@@ -526,6 +541,10 @@ def component_stage(ctx):
                     ctx.count("surveys-with:tags")
                 if facts["emitting_flag_mismatch"]:
                     ctx.count("surveys-with:emitting-flag-differs-from-configured-cycle")
+                if facts.get("booked_differs_from_cycle"):
+                    ctx.count("surveys-with:booked-emitting-day-differs-from-configured-cycle")
+                if facts.get("pause_day_of_zero_inactive"):
+                    ctx.count("surveys-on-the-pause-day-of-a-source-with-inactive_duration-0")
                 if facts.get("partial_days"):
                     ctx.count("surveys-spanning-several-days")
                     ctx.count("in-progress-days-checked", facts["partial_days"])
@@ -959,13 +978,23 @@ def wholerun_config(rng, with_fix=False, shape=None, wide=None):
                                       "months": list(range(1, 13))})
         for sc in cfg["sources"]:
             if sc["source"] == "sC":
-                sc.update({"persistent": False, "active": 1, "inactive": 1})
+                sc.update({"persistent": False, "active": 1, "inactive": rng.choice([0, 1])})
         cfg["nonrep"]["duration"] = 20
         cfg["consider_weather"] = False
         cfg["daylight"] = None
         for m in cfg["methods"].values():
             m["consider_daylight"] = False
         cfg["wide_applied"] = [{"tag": "multiday", "path": ["c05", "multiday"], "value": True}]
+    elif shape and shape.get("cycle"):
+        # every day of the on / off cycle of an intermittent source is surveyed: a stationary method surveys daily,
+        # the source is on for 1 or 2 days and has inactive_duration 0 (one pause day per cycle, see
+        # adapters/sensor.emitting_pattern)
+        cfg = W.make_config(rng, n_sims=1, ndays=nd, granular=True)
+        for sc in cfg["sources"]:
+            if sc["source"] == "sC":
+                sc.update({"persistent": False, "active": rng.choice([1, 2]), "inactive": 0})
+        cfg["methods"]["OGI"]["surveys_per_year"] = 12
+        cfg["wide_applied"] = [{"tag": "cycle", "path": ["c05", "cycle"], "value": True}]
     elif wide:
         # "wide": 1-3 leaves the base generator never varies / boundary values, applied by the shared
         # generator after its unchanged base draws and recorded in cfg["wide_applied"]; the derived programs
@@ -974,6 +1003,8 @@ def wholerun_config(rng, with_fix=False, shape=None, wide=None):
         _wide_follow_up_coverage(cfg, wide)
     else:
         cfg = W.make_config(rng, n_sims=1, ndays=nd)
+    if not multiday and not (shape and shape.get("cycle")):
+        _c05_sources(cfg)
     base = cfg["methods"]
     wl = _wide_leaves(cfg)
     # more variety than the generator's defaults for what C05 is about (a wide leaf is never overwritten)
@@ -1036,7 +1067,33 @@ def wholerun_prior_configs(rng, shape=None):
     return apply_shape(main, shape), apply_shape(prior, shape)
 
 
-def trace_survey_oracle(events, methods_cfg):
+def _c05_sources(cfg):
+    """intermittent sources of the whole-run configurations for C05: on / off durations incl. inactive_duration 0
+    (the value the loader fills in when the column is absent) and active_duration 1; own derived generator"""
+    if not cfg.get("granular"):
+        return cfg
+    xr = random.Random(cfg["weather_seed"] * 31 + 17)
+    for sc in cfg.get("sources", []):
+        if sc["source"] == "sC":
+            sc["persistent"] = xr.random() < 0.3
+            sc["active"] = xr.choice([1, 1, 2, 3])
+            sc["inactive"] = xr.choice([0, 0, 1, 2])
+    return cfg
+
+
+def source_cycle(sources_cfg, comp, repairable):
+    """(persistent, active, inactive) of the source an emission belongs to, from the configuration: the
+    generated configurations have at most one source per (component type, repairable)"""
+    if not sources_cfg:
+        return (True, 1, 0)
+    ctype = comp.rsplit("_", 1)[0]
+    hits = [sc for sc in sources_cfg if sc["component"] == ctype and bool(sc["repairable"]) == bool(repairable)]
+    if len(hits) != 1:
+        return None
+    return (bool(hits[0]["persistent"]), int(hits[0]["active"]), int(hits[0]["inactive"]))
+
+
+def trace_survey_oracle(events, methods_cfg, sources_cfg=None):
     """the per-survey clauses of C05 on the surveys of a real simulation, from the events of
     harness/adapters/sensor_trace.py plus the worker's own "tag" / "detect" events.
     Returns (findings [(signature, what, detail)], stats)."""
@@ -1044,7 +1101,8 @@ def trace_survey_oracle(events, methods_cfg):
     stats = {"surveys": 0, "cov_calls": 0, "sticky_reuse": 0, "tags": 0, "detects": 0, "visible": 0,
              "hidden_spatial": 0, "hidden_off": 0, "hidden_temporal": 0, "detected_units": 0,
              "undetected_nonzero_units": 0, "surveys_with_visible": 0, "first_rolls": 0,
-             "survey_steps": 0, "steps_left_in_progress": 0, "steps_completing": 0}
+             "survey_steps": 0, "steps_left_in_progress": 0, "steps_completing": 0,
+             "emitting_flag_differs_from_cycle": 0, "pause_day_of_zero_inactive": 0}
     stored = {}     # (k, method) -> outcome fixed by the first roll
     pend_cov = {}   # method -> cov entries since its last report
     pend_t = {}     # (method, k) -> temporal outcome
@@ -1122,7 +1180,21 @@ def trace_survey_oracle(events, methods_cfg):
             covs = pend_cov.pop(m, [])
             vis = []
             for c in covs:
-                (_, cday, _, csite, ceqg, ccomp, k, eid, rep, start, rate, before, after, emitting) = c[:14]
+                (_, cday, _, csite, ceqg, ccomp, k, eid, rep, start, rate, before, after, emitting_flag) = c[:14]
+                # "currently emitting" from the configured on / off cycle of the emission's source and its first
+                # active day, not from the emission's own is_emitting()
+                from harness.adapters.sensor import emitting_pattern
+
+                cyc = source_cycle(sources_cfg, ccomp, rep)
+                if cyc is None and len(c) > 17 and c[17][3] is not None:
+                    cyc = (False, int(c[17][3]), int(c[17][4]))
+                elif cyc is None:
+                    cyc = (True, 1, 0)
+                emitting = True if cyc[0] else emitting_pattern(start, cyc[1], cyc[2], cday)
+                if emitting != emitting_flag:
+                    stats["emitting_flag_differs_from_cycle"] += 1
+                if not cyc[0] and cyc[2] == 0 and not emitting:
+                    stats["pause_day_of_zero_inactive"] += 1
                 if csite != site or cday != day:
                     add("C05:wholerun:scope:emission-of-another-site-examined",
                         "a survey examined an emission outside the surveyed site", {"survey": [day, m, site], "cov": c})
@@ -1328,7 +1400,7 @@ def wholerun_one(args):
                     for t in res.trace:
                         if t.get("prog") == prog and t.get("sim") == sim:
                             ev = t["events"]
-                    f_s, st_s = trace_survey_oracle(ev, cfg["methods"])
+                    f_s, st_s = trace_survey_oracle(ev, cfg["methods"], cfg.get("sources") if cfg.get("granular") else None)
                     events += ev
                     findings += f_s
                     stats = st_s if stats is None else {k: stats[k] + st_s[k] for k in stats}
@@ -1405,6 +1477,7 @@ def history_configs(rng, kind, wide=None):
     nd = rng.choice([120, 200])
     cfg = W.make_config(rng, ndays=nd, wide=wide) if wide else W.make_config(rng, n_sims=1, ndays=nd)
     cfg["n_sims"] = 1
+    _c05_sources(cfg)
     names = ["OGI", "AIR", "OGI_FU"]
     par, v1, v2 = HISTORY_KINDS[kind]
     out = []
@@ -1471,7 +1544,7 @@ def wholerun_history_one(args):
         for t in r2.trace:
             if t.get("prog") == "P_M":
                 ev = t["events"]
-        f_s, stats = trace_survey_oracle(ev, cfg2["methods"])
+        f_s, stats = trace_survey_oracle(ev, cfg2["methods"], cfg2.get("sources") if cfg2.get("granular") else None)
         F += [(sig.replace("C05:wholerun:", "C05:wholerun:second-run:"), what, d) for (sig, what, d) in f_s]
         out["stats"] = stats
         out["run2_tags"] = sum(1 for e in ev if e and e[0] == "tag")
@@ -1548,6 +1621,10 @@ def wholerun_oracle(ctx):
     # an intermittent source): what a completed survey reports must be the completion day's reading
     for i in range(ctx.pick(1, 3)):
         jobs.append((ctx.rng.randrange(1 << 30), False, {"multiday": True}, None))
+    # every day of the on / off cycle of an intermittent source with inactive_duration 0 surveyed (daily stationary
+    # surveys + monthly component-scale surveys)
+    for i in range(ctx.pick(1, 2)):
+        jobs.append((ctx.rng.randrange(1 << 30), True, {"cycle": True}, None))
     # "history": the configuration is run in a folder in which a variant with ONE defining leaf changed
     # (harness/wholerun.prev_variant) was run before; every oracle is applied to the second run against ITS cfg
     hk = ["period-start", "site-count", "coverage", "mdl"]
@@ -1706,6 +1783,7 @@ def run(ctx):
     core.lean_stage(ctx, MODULE, FILE, drivers=["drv_sensor"])
     from harness.props import _tie
     _tie.crew_tie(ctx)  # layer 3: survey_site consults the sensor exactly once, on the completing step (CrewTie.survey_site_sensor)
+    _tie.emission_tie(ctx)  # layer 3: is_emitting / update / record columns of the emission classes (what 'currently emitting' means)
     if not core.LeanDriver("drv_sensor").available():
         raise core.InfraError("drv_sensor was not built")
     for stage in (coverage_writers_table, component_stage, flag_stage, wholerun_oracle):
